@@ -59,9 +59,15 @@ def gen_subs(rng):
         for _ in range(rng.randint(2, 4)):
             out.add(tuple(rng.randrange(16) for _ in range(rng.randint(1, 3))))
         return sorted(out)
-    if r < 0.9:    # nested
+    if r < 0.9:    # nested: parent and descendant in any order, with unrelated segments anywhere between them
         a = tuple(rng.randrange(16) for _ in range(rng.randint(1, 2)))
-        return [a, a + (rng.randrange(16),)] + ([(rng.randrange(16),)] if rng.random() < 0.5 else [])
+        child = a + tuple(rng.randrange(16) for _ in range(rng.randint(1, 3)))
+        out = [a, child]
+        for _ in range(rng.randint(0, 3)):
+            out.insert(rng.randint(0, len(out)), tuple(rng.randrange(16) for _ in range(rng.randint(1, 3))))
+        if rng.random() < 0.5:
+            rng.shuffle(out)
+        return out
     if r < 0.95:   # duplicates
         a = (rng.randrange(16),)
         return [a, (rng.randrange(16), 3), a]
